@@ -205,6 +205,13 @@ def jaccard (it : MLItem) : Rat :=
   let union := pairs.countP (fun p => p.1 || p.2)
   if union = 0 then 0 else ratio (pairs.countP (fun p => p.1 && p.2)) union
 
+/-- `jaccard` with a two-dimensional input: scikit-learn's `average="samples"` = mean over the rows -/
+def jaccardSamples (rows : List MLItem) : Rat := mean (rows.map jaccard)
+
+/-- `average_precision` with a two-dimensional input: `average="micro"` = the binary problem whose
+    examples are all (row, class) cells -/
+def microAP (rows : List MLItem) : Rat := averagePrecision (rows.flatMap (fun r => r.truth.zip r.row))
+
 /-! ### the clip score of the multilabel task
 
 `multilabel_example_score` is `exp(-log_loss(y_true, y_score))` of one example with an indicator
